@@ -19,7 +19,8 @@ THEOREMS = ['C10_idempotent', 'C10_ascii_clean', 'C10_canonical', 'C10_idempoten
             'C10_upper_pe_idempotent', 'C10_upper_pe_escapes_upper',
             'C10_percent_encode_ascii_clean', 'C10_percent_encode_fixpoint',
             'C10_equiv_scheme_case_partial', 'C10_equiv_default_port_partial', 'C10_equiv_host_case_partial',
-            'C10_equiv_dot_segments_partial', 'C10_equiv_escape_case_partial', 'C10_equiv_fragment_partial']
+            'C10_equiv_dot_segments_partial', 'C10_equiv_escape_case_partial', 'C10_equiv_fragment_partial',
+            'C10_constants_are_the_sources']
 TRUSTED = [
     'hand-written model Model/Url.v + Model/UrlLib.v of wpull/url.py, tied by the vm_compute correspondence of this run '
     '(error kind or all 14 attributes, .url, every accessor, parse_url_or_log) on generated URLs',
@@ -656,6 +657,12 @@ C10_REASONS = ('not-ascii-clean', 'scheme-not-lower', 'host-not-lower', 'default
 
 def is_c10_reason(b):
     return b.startswith(C10_REASONS)
+
+
+def pregen(ctx):
+    """regenerate coq/Gen/Consts.v (encode sets, default ports, ... of wpull/url.py) from the working tree"""
+    from harness.translate import consts
+    return consts.generate(ctx.repo)
 
 
 def classify_common(v):
